@@ -305,6 +305,40 @@ func genIntProgram(t numType, r *rand.Rand, thorough bool, rot int) (map[string]
 		}
 	}
 
+	// magnitude sweep: multiplication, division and remainder by constants of every bit length
+	// (a translation that depends on the size of a constant operand is exercised at each size)
+	for bl := 2; bl <= t.Bits; bl++ {
+		if !thorough && bl%2 == 1 && bl < t.Bits-2 && bl > 8 && r.Intn(2) == 0 {
+			continue
+		}
+		k := new(big.Int).Lsh(big.NewInt(1), uint(bl-1))
+		k.Or(k, new(big.Int).Rsh(new(big.Int).SetUint64(r.Uint64()), uint(64-bl+1)))
+		k.SetBit(k, 0, 1)
+		if r.Intn(3) == 0 {
+			k.Sub(new(big.Int).Lsh(big.NewInt(1), uint(bl)), big.NewInt(1))
+		}
+		if t.Signed && r.Intn(2) == 0 {
+			k.Neg(k)
+		}
+		k = wrap(k, t)
+		if k.Sign() == 0 {
+			continue
+		}
+		kl := lit(k, t)
+		for _, op := range [][2]string{{"mul", "*"}, {"quo", "/"}, {"rem", "%"}} {
+			n1 := fmt.Sprintf("mg_%s_%d", op[0], bl)
+			fmt.Fprintf(&b, "func %s(a %s) %s { return a %s %s }\n", n1, t.Name, t.Name, op[1], kl)
+			constFns = append(constFns, cfn{n1, "val"})
+			if op[0] == "mul" {
+				n2 := fmt.Sprintf("gm_%s_%d", op[0], bl)
+				fmt.Fprintf(&b, "func %s(a %s) %s { return %s %s a }\n", n2, t.Name, t.Name, kl, op[1])
+				n3 := fmt.Sprintf("ga_%s_%d", op[0], bl)
+				fmt.Fprintf(&b, "func %s(a %s) %s { a %s= %s; return a }\n", n3, t.Name, t.Name, op[1], kl)
+				constFns = append(constFns, cfn{n2, "val"}, cfn{n3, "val"})
+			}
+		}
+	}
+
 	// fully constant expressions (folded by go/types) – only those valid in Go (no overflow)
 	var foldLines []string
 	for i := 0; i < len(grid) && len(foldLines) < 400; i++ {
